@@ -34,7 +34,13 @@ CXXFLAGS = ["-std=c++17", "-O0", "-fno-access-control", "-DNDEBUG", "-DCNTGS_VER
 
 
 def sh(cmd, **kw):
-    return subprocess.run(cmd, stdout=subprocess.PIPE, stderr=subprocess.STDOUT, text=True, **kw)
+    try:
+        return subprocess.run(cmd, stdout=subprocess.PIPE, stderr=subprocess.STDOUT, text=True, **kw)
+    except subprocess.TimeoutExpired as e:
+        out = e.stdout or ""
+        if isinstance(out, bytes):
+            out = out.decode(errors="replace")
+        return subprocess.CompletedProcess(cmd, 124, out + "\nTIMEOUT after %ss: %s\n" % (kw.get("timeout"), " ".join(map(str, cmd[:3]))), None)
 
 
 # ---------------------------------------------------------------- proof step
